@@ -230,7 +230,8 @@ type GramSpec struct {
 	Jobs func(g *GenGrammar) []*Job
 	// BrokenIsViolation: a variant that does not generate/compile violates the property.
 	BrokenIsViolation    bool
-	ValidateEveryGrammar int // validate sampled paths natively for every k-th grammar
+	RaceReplay           bool // build the native replay drivers with the race detector
+	ValidateEveryGrammar int  // validate sampled paths natively for every k-th grammar
 	Cfg                  symx.Config
 }
 
@@ -426,7 +427,7 @@ func runGrammarProperty(c *Ctx, fam []*family.Grammar, spec *GramSpec) error {
 					entries = append(entries, e.Name)
 				}
 			}
-			runners[gg.Pkg+"/h"] = &NativeRunner{Dir: ws.vwDir(), PkgPath: gg.Pkg + "/h", Entries: entries}
+			runners[gg.Pkg+"/h"] = &NativeRunner{Dir: ws.vwDir(), PkgPath: gg.Pkg + "/h", Entries: entries, Race: spec.RaceReplay}
 			for _, j := range spec.Jobs(gg) {
 				if hp.Func(j.Entry) == nil {
 					continue
